@@ -272,6 +272,28 @@ def check (pid : String) (j : Json) : Except String Verdict := do
         r := r.specFail (c04reconnect prevB o newSid)
         if jStrD oj "servedDuring" "" != "val:e1#1" then
           r := r.specFail (some s!"C04.cache_survives: during the outage the cached endpoint set was answered with {jStrD oj "servedDuring" ""}")
+    | "double-failure" =>
+      -- two failures while the sender is stuck in Send: stream 2 is published and dies unadopted; stream 3 is handed over
+      -- once the sender has taken (and failed to re-subscribe on) stream 2
+      let rt ← match rtOfStr (jStrD st "rt" "?") with | some t => pure t | none => throw "double-failure: type"
+      let first ← jStr st "first"
+      r := r.op cfg (.touch rt first now) what
+      r := r.op cfg (.subscribe rt first) what
+      r := r.op cfg (.senderSend true) s!"{what}: the stalled Send fails"
+      r := r.op cfg .reconnectDrain what
+      r := r.op cfg .publish what
+      r := r.op cfg .reconnectDrain s!"{what}: second failure"
+      r := r.op cfg (.senderAdopt (watchedTypes r.s) 0) s!"{what}: the sender takes the dead stream 2; its first Send fails"
+      r := r.op cfg .publish s!"{what}: hand-off of stream 3"
+      let newSid := o.streams
+      let order := (o.reqs.filter (fun q => q.sid = newSid)).map (·.rt) |>.take (watchedTypes r.s).length
+      r := r.op cfg (.senderAdopt order order.length) what
+      r := r.drain cfg
+      r := r.compare o oj uni what
+      if pid = "C04" then
+        if newSid != 3 then r := r.specFail (some s!"C04: after two failures the newest stream is {newSid}")
+        let prevB : Obs := { prev with interest := fun t => if t = rt then (prev.interest t).map (fun ws => sortStr (ws ++ [first])) else prev.interest t }
+        r := r.specFail (c04reconnect prevB o newSid)
     | "stalled-reconnect" =>
       let rt ← match rtOfStr (jStrD st "rt" "?") with | some t => pure t | none => throw "stalled-reconnect: type"
       let first ← jStr st "first"
